@@ -101,6 +101,9 @@ fn shrink_env(e: &EnvPlan) -> Vec<EnvPlan> {
     if e.shared_pos {
         out.push(EnvPlan { shared_pos: false, ..e.clone() });
     }
+    if e.src_start != 0 {
+        out.push(EnvPlan { src_start: 0, ..e.clone() });
+    }
     if e.faults.len() > 1 {
         for i in 0..e.faults.len() {
             let mut f = e.faults.clone();
